@@ -818,7 +818,7 @@ func runC07(cfg *vh.Config) error {
 		frontRecs[i].Pos = i % perFront
 	}
 	res.Cases = append(res.Cases, frontRecs...)
-	const perWalk = 60
+	const perWalk = 30
 	wshards, err := wf.WriteShards(cfg.Out, "walk", perWalk)
 	if err != nil {
 		return err
